@@ -352,7 +352,36 @@ async fn run_async(script: &SockScript) -> SockLog {
                     0 => Some((fake_addr(200), raw_header(0, 4242, 1, 1, 1000, b"stray"))),
                     1 => Some((fake_addr(0), raw_header(0, 4243, 77, 5, 1000, b"stray"))),
                     2 => newest.map(|w| (fake_addr(201), raw_header(3, w.hdr.as_ref().unwrap().conn_id, 0, 0, 0, &[]))),
-                    _ => newest.map(|w| (w.from, raw_header(1, w.hdr.as_ref().unwrap().conn_id, w.hdr.as_ref().unwrap().seq.wrapping_add(1000), 0, 0, &[]))),
+                    3 => newest.map(|w| (w.from, raw_header(1, w.hdr.as_ref().unwrap().conn_id, w.hdr.as_ref().unwrap().seq.wrapping_add(1000), 0, 0, &[]))),
+                    // malformed datagrams from the live peer's address with the live connection's id:
+                    // 4 truncated header, 5 protocol version 0, 6 extension chain running past the end,
+                    // 7 packet type 7 - all must be discarded without a trace
+                    4 => newest.map(|w| (w.from, raw_header(0, w.hdr.as_ref().unwrap().conn_id, 1, 1, 1000, &[])[..10].to_vec())),
+                    5 => newest.map(|w| {
+                        let mut b = raw_header(0, w.hdr.as_ref().unwrap().conn_id, w.hdr.as_ref().unwrap().seq, 0, 1000, b"v0");
+                        b[0] &= 0xf0;
+                        (w.from, b)
+                    }),
+                    6 => newest.map(|w| {
+                        let mut b = raw_header(2, w.hdr.as_ref().unwrap().conn_id, w.hdr.as_ref().unwrap().seq, w.hdr.as_ref().unwrap().ack, 1000, &[1, 255, 0xff, 0xff]);
+                        b[1] = 1;
+                        (w.from, b)
+                    }),
+                    7 => newest.map(|w| {
+                        let mut b = raw_header(0, w.hdr.as_ref().unwrap().conn_id, w.hdr.as_ref().unwrap().seq, 0, 1000, &[]);
+                        b[0] = (7 << 4) | 1;
+                        (w.from, b)
+                    }),
+                    // aimed at the live connection, well-formed but absurd: 8 a 36-byte selective ACK of ones with
+                    // an ack number far ahead, 9 a SYN carrying the live connection's id
+                    8 => newest.map(|w| {
+                        let mut ext = vec![0u8, 36];
+                        ext.extend_from_slice(&[0xff; 36]);
+                        let mut b = raw_header(2, w.hdr.as_ref().unwrap().conn_id, w.hdr.as_ref().unwrap().seq, w.hdr.as_ref().unwrap().ack.wrapping_add(30000), 0, &ext);
+                        b[1] = 1;
+                        (w.from, b)
+                    }),
+                    _ => newest.map(|w| (w.from, raw_header(4, w.hdr.as_ref().unwrap().conn_id, 7777, 0, 0, &[]))),
                 };
                 if let Some((from, b)) = bytes_from {
                     net.inject_now(from, sock_addr(*to), b);
